@@ -21,6 +21,7 @@ namespace sdk
 {
 namespace logs
 {
+class LoggerProvider;
 
 class Logger final : public opentelemetry::logs::Logger
 {
@@ -60,6 +61,10 @@ public:
   }
 
 private:
+  // The provider looks loggers up by the name they were created with; GetName() reports the no-op
+  // logger's name for a disabled logger and cannot be used for that.
+  friend class LoggerProvider;
+
   // The name of this logger
   std::string logger_name_;
 
